@@ -349,6 +349,11 @@ Section Buffered.
   Variable frepr : fl -> str.
   (* SyncedCollection._update; instantiated with [merge] (and with [merge_mark] by the classifier) *)
   Variable mg : json -> json -> json.
+  (* The buffer is keyed by the file NAME a collection was created with, the files by what the name denotes.
+     [canon k] is the file a key denotes.  It is the identity whenever project paths are canonical (the theorems
+     are stated for that instance); a Project object reached through a symlinked prefix has names that abspath
+     does not canonicalise — its keys are 100 + file id (CorrC05.canon100). *)
+  Variable canon : N -> N.
 
   Definition sync_apply := apply_with mg.
 
@@ -381,11 +386,11 @@ Section Buffered.
         | Some e =>
             let st1 :=
               if json_eqb m (b_hash e) then st
-              else if negb (ometa_eqb (b_meta e) (nlookup f (vers (dk st)))) then
+              else if negb (ometa_eqb (b_meta e) (nlookup (canon f) (vers (dk st)))) then
                 with_ferr st true                       (* MetadataError: the file changed on disk since it was buffered *)
               else let m' := mg m (b_contents e) in
-                   if nmem f (nowrite (dk st)) then with_ferr (set_mem st h f m') true   (* _update, then ENOENT in _save_to_resource *)
-                   else write_file (set_mem st h f m') f m' in
+                   if nmem (canon f) (nowrite (dk st)) then with_ferr (set_mem st h f m') true   (* _update, then ENOENT in _save_to_resource *)
+                   else write_file (set_mem st h f m') (canon f) m' in
             with_buf st1 (nremove f (buf st1))
         end
     end.
@@ -403,9 +408,9 @@ Section Buffered.
       match nlookup f (buf st) with
       | Some _ => (st, m)
       | None =>
-          let m1 := merge_opt m (nlookup f (files st)) in
+          let m1 := merge_opt m (nlookup (canon f) (files st)) in
           (with_buf (set_mem st h f m1)
-             (nset f {| b_contents := m1; b_hash := m1; b_meta := nlookup f (vers (dk st)) |} (buf st)), m1)
+             (nset f {| b_contents := m1; b_hash := m1; b_meta := nlookup (canon f) (vers (dk st)) |} (buf st)), m1)
       end in
     let st2 := register st1 h in
     let blob := match nlookup f (buf st2) with Some e => b_contents e | None => m1 end in
@@ -423,21 +428,21 @@ Section Buffered.
       match nlookup f (buf st0) with
       | Some e => with_buf st0 (nset f {| b_contents := m; b_hash := b_hash e; b_meta := b_meta e |} (buf st0))
       | None =>
-          let disk := match nlookup f (files st0) with Some v => v | None => JNull end in
-          with_buf st0 (nset f {| b_contents := m; b_hash := disk; b_meta := nlookup f (vers (dk st0)) |} (buf st0))
+          let disk := match nlookup (canon f) (files st0) with Some v => v | None => JNull end in
+          with_buf st0 (nset f {| b_contents := m; b_hash := disk; b_meta := nlookup (canon f) (vers (dk st0)) |} (buf st0))
       end in
     check_capacity st1.
 
   Definition load (st : cstate) (h f : N) (m : json) : cstate * json :=
     match depth st with
-    | O => let m' := merge_opt m (nlookup f (files st)) in (set_mem st h f m', m')
+    | O => let m' := merge_opt m (nlookup (canon f) (files st)) in (set_mem st h f m', m')
     | S _ => load_buffered st h f m
     end.
 
   Definition save (st : cstate) (h f : N) (m : json) : cstate :=
     match depth st with
-    | O => if nmem f (nowrite (dk st)) then with_oerr (set_mem st h f m) true      (* ENOENT: the directory is gone *)
-           else write_file (set_mem st h f m) f m
+    | O => if nmem (canon f) (nowrite (dk st)) then with_oerr (set_mem st h f m) true      (* ENOENT: the directory is gone *)
+           else write_file (set_mem st h f m) (canon f) m
     | S _ => save_buffered st h f m
     end.
 
@@ -580,21 +585,25 @@ Section Buffered.
     | None => nremove f' (nremove f l)
     end.
 
+  (* [jobs] records for every Job/Project object the KEY of its document (file name as the object spells it) *)
+  Definition prov_symlink : N := 5.
+  Definition key_of (f prov : N) : N := if N.eqb prov prov_symlink then (f + 100)%N else f.
+
   Definition resolve_doc (js : jstate) (j : N) : option (jstate * N) :=
     match nlookup j (jobs js) with
     | None => None
-    | Some (f, Some h) => Some (js, h)
-    | Some (f, None) =>
+    | Some (k, Some h) => Some (js, h)
+    | Some (k, None) =>
         let h := nexth js in
-        Some ({| core := core_mkdir (fst (cstep (core js) (CNew h f))) f;
-                 dirs := add_dir (dirs js) f;
-                 jobs := nset j (f, Some h) (jobs js);
+        Some ({| core := core_mkdir (fst (cstep (core js) (CNew h k))) (canon k);
+                 dirs := add_dir (dirs js) (canon k);
+                 jobs := nset j (k, Some h) (jobs js);
                  nexth := N.succ h |}, h)
     end.
 
   Definition jstep (js : jstate) (it : jitem) : jstate * result json :=
     match it with
-    | JOpen j f _ => ({| core := core js; dirs := dirs js; jobs := nset j (f, None) (jobs js); nexth := nexth js |}, Ok JNull)
+    | JOpen j f prov => ({| core := core js; dirs := dirs js; jobs := nset j (key_of f prov, None) (jobs js); nexth := nexth js |}, Ok JNull)
     | JCwd _ => (js, Ok JNull)
     | JOp j p o =>
         match resolve_doc js j with
@@ -605,16 +614,18 @@ Section Buffered.
     | JInit j =>
         match nlookup j (jobs js) with
         | None => (js, Err EOther)
-        | Some (f, _) => ({| core := core_mkdir (core js) f; dirs := add_dir (dirs js) f; jobs := jobs js; nexth := nexth js |}, Ok JNull)
+        | Some (k, _) => ({| core := core_mkdir (core js) (canon k); dirs := add_dir (dirs js) (canon k); jobs := jobs js; nexth := nexth js |}, Ok JNull)
         end
     | JRekey j f' =>
         match nlookup j (jobs js) with
         | None => (js, Err EOther)
-        | Some (f, d) =>
+        | Some (k, d) =>
+            let f := canon k in
+            let k' := (f' + (k - f))%N in          (* the object spells the new name the way it spelled the old one *)
             if N.eqb f f' then (js, Ok JNull)
             else if negb (nmem f (dirs js)) then
               (* not initialised: only the id changes, lazy properties are reset *)
-              ({| core := core js; dirs := dirs js; jobs := nset j (f', None) (jobs js); nexth := nexth js |}, Ok JNull)
+              ({| core := core js; dirs := dirs js; jobs := nset j (k', None) (jobs js); nexth := nexth js |}, Ok JNull)
             else if nmem f' (dirs js) then (js, Err EDestinationExists)
             else
               let c := core js in
@@ -623,12 +634,13 @@ Section Buffered.
                              nowrite := f :: filter (fun x => negb (N.eqb x f')) (nowrite (dk c)); ferr := ferr (dk c); oerr := oerr (dk c) |} in
               ({| core := c';
                   dirs := add_dir (del_dir (dirs js) f) f';
-                  jobs := nset j (f', None) (jobs js); nexth := nexth js |}, Ok JNull)
+                  jobs := nset j (k', None) (jobs js); nexth := nexth js |}, Ok JNull)
         end
     | JRemove j =>
         match nlookup j (jobs js) with
         | None => (js, Err EOther)
-        | Some (f, d) =>
+        | Some (k, d) =>
+            let f := canon k in
             if negb (nmem f (dirs js)) then (js, Ok JNull)
             else
               let c1 := core_rmfile (core js) f in
@@ -639,12 +651,12 @@ Section Buffered.
                      continues with a fresh object for the same job, which is what [jobs] records) *)
                   let '(c2, r) := cstep c1 (COp h [] OClear) in
                   match r with
-                  | Ok _ => ({| core := c2; dirs := del_dir (dirs js) f; jobs := nset j (f, None) (jobs js); nexth := nexth js |}, Ok JNull)
-                  | Err e => ({| core := c2; dirs := del_dir (dirs js) f; jobs := nset j (f, None) (jobs js); nexth := nexth js |}, Err e)
+                  | Ok _ => ({| core := c2; dirs := del_dir (dirs js) f; jobs := nset j (k, None) (jobs js); nexth := nexth js |}, Ok JNull)
+                  | Err e => ({| core := c2; dirs := del_dir (dirs js) f; jobs := nset j (k, None) (jobs js); nexth := nexth js |}, Err e)
                   end
               | _, _ =>
                   (* outside blocks clear() fails with ENOENT, which remove() ignores *)
-                  ({| core := c1; dirs := del_dir (dirs js) f; jobs := nset j (f, None) (jobs js); nexth := nexth js |}, Ok JNull)
+                  ({| core := c1; dirs := del_dir (dirs js) f; jobs := nset j (k, None) (jobs js); nexth := nexth js |}, Ok JNull)
               end
         end
     | JEnter c => let '(c', r) := cstep (core js) (CEnter c) in (with_core js c', r)
